@@ -32,6 +32,11 @@ THEOREMS = [
     "MCHap.C01.recomb_db",
     "MCHap.C01.dosage_return_pos",
     "MCHap.C01.recomb_return_pos",
+    "MCHap.C01.dosageNOptions_eq_card",
+    "MCHap.C01.recombNOptions_double_eq_card",
+    "MCHap.C01.dosagePairs_sound",
+    "MCHap.C01.dosagePairs_injective",
+    "MCHap.C01.recombPairs_sound",
     "MCHap.C01.exchange_db",
     "MCHap.C01.assemblePrior_dosage_perm",
     "MCHap.C01.asmW_perm",
